@@ -15,10 +15,53 @@ def impl(case):
     stop_ = (lambda n: n.label in stop) if (stop or not case.get("defaults")) else None
     before = snapshot(idx)
     it = KINDS[case["kind"]](idx[case["start"]], filter_=filter_, stop=stop_, maxlevel=case["maxlevel"])
-    if case["kind"] in ("group", "zigzag"):
-        res = [[n.label for n in grp] for grp in it]
+    grouped = case["kind"] in ("group", "zigzag")
+    conv = (lambda g: [n.label for n in g]) if grouped else (lambda n: n.label)
+    mode = case.get("consume") or "list"
+    proto = []
+    if mode == "list":
+        res = [conv(x) for x in it]
     else:
-        res = [n.label for n in it]
+        # the iterator object is a one-pass stream (`__iter__` returns the object itself): however it is
+        # consumed - a `for` loop left early, explicit next() calls, several iter() handles - the pieces
+        # concatenate to the one defined order, and an exhausted iterator stays exhausted
+        k = case.get("k", 1)
+        res = []
+        if mode == "forbreak":
+            if k > 0:
+                for x in it:
+                    res.append(conv(x))
+                    if len(res) >= k:
+                        break
+            res.extend(conv(x) for x in it)
+        elif mode == "next":
+            for _ in range(k):
+                try:
+                    res.append(conv(next(it)))
+                except StopIteration:
+                    break
+            res.extend(conv(x) for x in it)
+        elif mode == "twoiters":
+            i1, i2 = iter(it), iter(it)
+            if i1 is not it or i2 is not it:
+                proto.append("iter(it) is not it")
+            for _ in range(k):
+                try:
+                    res.append(conv(next(i1)))
+                except StopIteration:
+                    break
+            res.extend(conv(x) for x in i2)
+            res.extend(conv(x) for x in i1)
+        again = [conv(x) for x in it]
+        if again:
+            proto.append("exhausted iterator yielded again: %r" % (again[:3],))
+        try:
+            next(it)
+            proto.append("next() on an exhausted iterator returned")
+        except StopIteration:
+            pass
     if snapshot(idx) != before:
         return {"mutated": True, "res": res}
+    if proto:
+        return {"protocol": proto, "res": res}
     return res
